@@ -13,11 +13,15 @@ package main
 import (
 	"fmt"
 	"os"
+	"path/filepath"
 	"runtime"
+	"sort"
 	"strconv"
 	"strings"
+	"time"
 
 	"golang.org/x/telemetry/internal/counter"
+	"golang.org/x/telemetry/internal/telemetry"
 	"golang.org/x/telemetry/internal/verifh/vh_stack/pa"
 	"golang.org/x/telemetry/internal/verifh/vh_stack/pb"
 	. "golang.org/x/telemetry/internal/verifh/vhlib"
@@ -392,15 +396,66 @@ func caseCache() {
 // caseCacheGeneric: two call stacks that differ only in the instantiation of a
 // generic function (pa.G[int] vs pa.G[map[string]pb.Deep]) within the counter's
 // depth: different pcs, but the runtime names both frames pa.G[...].
+// caseCacheDepths: two StackCounters made by the public constructor with ONE
+// name and different depths, incremented from chains that share their top
+// frames and differ further down.
+func caseCacheDepths() {
+	out.Note("cache-one-name-two-depths")
+	name := Pick(rnd, []string{"st", "stack/x", "depths"})
+	tail := genProg()
+	if len(tail) > 6 {
+		tail = tail[:6]
+	}
+	progs := [][]byte{append([]byte{3}, tail...), append([]byte{8}, tail...), append([]byte{0, 9}, tail...)}
+	d1 := 1 + rnd.Intn(3)
+	d2 := d1 + 2*len(tail) + 4 + rnd.Intn(4)
+	if rnd.Bool() {
+		d1, d2 = d2, d1
+	}
+	runCacheMode(name, d1, progs, 6, 0, 0)
+	runCacheMode(name, d2, progs, 6, 0, 0)
+}
+
 func caseCacheGeneric() {
 	out.Note("cache-generic-instantiations")
-	runCache("st", 3, [][]byte{{3}, {20}}, 4, 0)
+	runCacheMode("st", 3, [][]byte{{3}, {20}}, 4, 0, 1)
 }
 
 // runCache: leafSel < 0 picks a random leaf for every Inc.
+// cacheMode: 0 = the public constructor counter.NewStack on the (never opened,
+// hence unmapped) default file; 1 = a private unmapped file; 2 = a private file
+// opened (mapped) before the increments.
 func runCache(name string, depth int, progs [][]byte, nincs int, leafSel int) {
-	vf := counter.VerifNewFile()
-	theStack = vf.NewStack(name, depth)
+	runCacheMode(name, depth, progs, nincs, leafSel, rnd.Intn(4)%3)
+}
+
+func runCacheMode(name string, depth int, progs [][]byte, nincs int, leafSel int, mode int) {
+	state := "unmapped"
+	switch mode {
+	case 0:
+		theStack = counter.NewStack(name, depth)
+		out.Note("cache-NewStack-default-file")
+	case 1:
+		theStack = counter.VerifNewFile().NewStack(name, depth)
+	default:
+		dir, err := os.MkdirTemp("", "vh_stack")
+		if err != nil {
+			panic(err)
+		}
+		defer os.RemoveAll(dir)
+		telemetry.Default = telemetry.NewDir(dir)
+		os.MkdirAll(telemetry.Default.LocalDir(), 0777)
+		os.WriteFile(filepath.Join(telemetry.Default.LocalDir(), "weekends"), []byte("2\n"), 0666)
+		counter.CounterTime = func() time.Time { return time.Date(2024, 5, 6, 7, 8, 9, 0, time.UTC) }
+		vf := counter.VerifNewFile()
+		vf.Rotate1()
+		defer vf.Close()
+		if vf.CurrentName() != "" {
+			state = "mapped"
+		}
+		theStack = vf.NewStack(name, depth)
+		out.Note("cache-" + state + "-file")
+	}
 	nprogs := len(progs)
 	ids := map[uintptr]int{}
 	id := func(pc uintptr) string {
@@ -412,6 +467,11 @@ func runCache(name string, depth int, progs [][]byte, nincs int, leafSel int) {
 	fields := []string{"cache", HS(name), I(int64(depth)), I(int64(nincs))}
 	prev := map[int]uint64{}
 	bad := ""
+	// counters the object already has (none for a fresh StackCounter)
+	pre := theStack.Counters()
+	for ci, c := range pre {
+		prev[ci], _ = counter.Read(c)
+	}
 	for k := 0; k < nincs; k++ {
 		pi := rnd.Intn(nprogs)
 		which := rnd.Intn(2)
@@ -441,17 +501,47 @@ func runCache(name string, depth int, progs [][]byte, nincs int, leafSel int) {
 		// which counter moved?
 		ctrs := theStack.Counters()
 		hit := -1
+		var changed []int
 		for ci, c := range ctrs {
 			v, err := counter.Read(c)
 			if err != nil {
 				bad = "read-error"
 			}
 			if v != prev[ci] {
-				if hit >= 0 || v != prev[ci]+1 {
+				if v != prev[ci]+1 {
 					bad = "not-exactly-one-increment"
 				}
-				hit = ci
+				changed = append(changed, ci)
 				prev[ci] = v
+			}
+		}
+		switch {
+		case len(changed) == 1:
+			hit = changed[0]
+		case len(changed) > 1:
+			// In a mapped file counters with ONE name are one persistent cell (known finding
+			// symboliser-not-injective): all of them move.  Then the counter that was hit is
+			// the one whose recorded pcs are this call stack.
+			same := state == "mapped"
+			for _, ci := range changed {
+				same = same && ctrs[ci].Name() == ctrs[changed[0]].Name()
+			}
+			if !same {
+				bad = "not-exactly-one-increment"
+			}
+			rec := counter.VerifStackPCs(theStack)
+			for _, ci := range changed {
+				ok := len(rec[ci]) == len(key)
+				for j := 1; ok && j < len(rec[ci]); j++ {
+					ok = rec[ci][j] == capture[j]
+				}
+				if ok && len(rec[ci]) > 0 {
+					fn := runtime.FuncForPC(rec[ci][0] - 1)
+					ok = fn != nil && strings.HasSuffix(fn.Name(), []string{".leafIncA", ".leafIncB"}[which])
+				}
+				if ok {
+					hit = ci
+				}
 			}
 		}
 		fields = append(fields, I(int64(len(key))))
@@ -488,6 +578,26 @@ func runCache(name string, depth int, progs [][]byte, nincs int, leafSel int) {
 		fields = append(fields, frameFields(framesOf(pcs))...)
 		fields = append(fields, HS(names[i]))
 	}
+	// values and ReadStack (what countertest.ReadStackCounter returns) in this state
+	ctrs := theStack.Counters()
+	fields = append(fields, I(int64(len(ctrs))))
+	for _, c := range ctrs {
+		v, _ := counter.Read(c)
+		fields = append(fields, U(v))
+	}
+	rs, err := counter.ReadStack(theStack)
+	if err != nil {
+		bad = "readstack-error"
+	}
+	var keys []string
+	for k := range rs {
+		keys = append(keys, k)
+	}
+	sort.Strings(keys)
+	fields = append(fields, state, I(int64(len(pre))), I(int64(len(keys))))
+	for _, k := range keys {
+		fields = append(fields, HS(k), U(rs[k]))
+	}
 	fields = append(fields, bad+"-")
 	out.Note(fmt.Sprintf("cache-depth-%d", depth))
 	out.Case(true, fields...)
@@ -502,6 +612,8 @@ func main() {
 		switch {
 		case i == 9:
 			caseCacheGeneric()
+		case i%100 == 19:
+			caseCacheDepths()
 		case i%10 < 5:
 			caseEnc()
 		case i%10 < 8:
